@@ -134,9 +134,17 @@ func (m C19Msg) build() (any, *state.ChangeMessage, error) {
 	case 2:
 		cm, err = buildChange(m.Helper, m.Key, SNamed{N: m.V}, SNamed{N: m.V + 1}, opts)
 	case 3:
-		cm, err = buildChange(m.Helper, m.Key, []string{fmt.Sprint(m.V), "t"}, []string{}, opts)
+		val := []string{fmt.Sprint(m.V), "t"}
+		if m.V == 9 {
+			val = nil // an entity whose JSON encoding is null: a value all the same
+		}
+		cm, err = buildChange(m.Helper, m.Key, val, []string{}, opts)
 	default:
-		cm, err = buildChange(m.Helper, m.Key, map[string]int{fmt.Sprintf("k%d", m.V): m.V}, map[string]int{}, opts)
+		val := map[string]int{fmt.Sprintf("k%d", m.V): m.V}
+		if m.V == 9 {
+			val = nil
+		}
+		cm, err = buildChange(m.Helper, m.Key, val, map[string]int{}, opts)
 	}
 	if err != nil {
 		return nil, nil, err
